@@ -363,7 +363,7 @@ var pureLib = map[string]bool{
 	"strconv.Itoa": true, "strconv.FormatInt": true, "strconv.Quote": true,
 	"(net/url.Values).Get": true, "(net/url.Values).Has": true, "(*net/url.URL).Query": true, "(net/http.Header).Get": true,
 	"(*net/http.Request).Context": true, "github.com/go-chi/chi/v5.URLParam": true,
-	"(*regexp.Regexp).MatchString": true, "(*regexp.Regexp).FindAllStringSubmatch": true, "(*regexp.Regexp).FindStringSubmatch": true,
+	"regexp.MustCompile": true, "(*regexp.Regexp).MatchString": true, "(*regexp.Regexp).FindAllStringSubmatch": true, "(*regexp.Regexp).FindStringSubmatch": true,
 	"(time.Time).Format": true, "(time.Time).UTC": true, "(time.Time).IsZero": true, "(time.Time).Round": true, "(time.Time).Equal": true,
 	"(time.Time).Before": true, "(time.Time).After": true,
 	// reflection used as a pure accessor: the value of field i of a row is a function of the row and of i
